@@ -125,7 +125,6 @@ def normArr (leaf : Val → Val) : Nat → Val → Val
 def prodNat (ds : List Nat) : Nat := ds.foldl (· * ·) 1
 
 /-- Variant fields as `NewVariant` / `Variant.Decode` leave them.  Excluded (findings):
-    scalar with the dimensions bit, array of ByteString with elements,
     dimension lists with more than one entry that contain 0. -/
 def wtVariant (rec : Ty → Val → Bool) (mask alen dlen : Nat) (dims : Option (List Nat)) (vt : VTag) (value : Val) : Bool :=
   let tid := mask % 64
@@ -134,14 +133,14 @@ def wtVariant (rec : Ty → Val → Bool) (mask alen dlen : Nat) (dims : Option 
      decide (alen = 0 ∧ dlen = 0 ∧ dims = none ∧ vt = ⟨0, 0⟩) && value.isNil
    else if tid > 25 then false
    else if ¬ has mask 0x80 then
-     !has mask 0x40 && decide (alen = 0 ∧ dlen = 0 ∧ dims = none ∧ vt = ⟨tid, 0⟩) && wtLeaf rec tid value
+     decide (alen = 0 ∧ dlen = 0 ∧ dims = none ∧ vt = ⟨tid, 0⟩) && wtLeaf rec tid value
    else if alen = 4294967295 then
      !has mask 0x40 && decide (dlen = 0 ∧ dims = none ∧ vt = ⟨tid, 1⟩) &&
      (match value with
       | .slice true [] => true
       | _ => false)
    else
-     decide (alen ≤ 65535 ∧ (tid = 15 → alen = 0)) &&
+     decide (alen ≤ 65535) &&
      (if ¬ has mask 0x40 then
         decide (dlen = 0 ∧ dims = none ∧ vt = ⟨tid, 1⟩) && wtArr (wtLeaf rec tid) [alen] value
       else match dims with
